@@ -43,3 +43,8 @@ pub mod varint;
 
 /// Application Layer Protocol Negotiation for WebTransport connections.
 pub const WEBTRANSPORT_ALPN: &[u8; 2] = b"h3";
+
+/// Verification harnesses and contract helpers (compiled only by `cargo kani`; sources in /verif).
+#[cfg(kani)]
+#[path = "/verif/kani/proto/mod.rs"]
+mod verif_kani;
